@@ -9,34 +9,19 @@ package main
 
 import (
 	"bufio"
-	"context"
 	"errors"
-	"fmt"
+	"github.com/pingcap/log"
+	"github.com/tikv/client-go/v2/oracle"
+	"go.uber.org/zap"
 	"math"
-	"math/rand"
 	"os"
-	"runtime"
-	"sort"
 	"strconv"
 	"strings"
-	"sync"
-	"sync/atomic"
-	"time"
-
-	"github.com/pingcap/log"
-	tikverr "github.com/tikv/client-go/v2/error"
-	"github.com/tikv/client-go/v2/oracle"
-	"github.com/tikv/client-go/v2/oracle/oracles"
-	"github.com/tikv/client-go/v2/txnkv/transaction"
-	pd "github.com/tikv/pd/client"
-	"github.com/tikv/pd/client/clients/tso"
-	"github.com/tikv/pd/client/pkg/caller"
-	"go.uber.org/zap"
 )
 
 var out *bufio.Writer
 
-func emit(f ...string) { out.WriteString(strings.Join(f, "\t")); out.WriteByte('\n') }
+func emit(f ...string)  { out.WriteString(strings.Join(f, "\t")); out.WriteByte('\n') }
 func u(v uint64) string { return strconv.FormatUint(v, 16) }
 func i(v int64) string {
 	if v < 0 {
@@ -58,191 +43,6 @@ func pi(s string) int64 {
 	return int64(pu(s))
 }
 func pn(s string) int { v, _ := strconv.Atoi(s); return v }
-
-// ---------------------------------------------------------------- scripted PD
-type pdres struct {
-	p, l int64
-	err  bool
-}
-
-func (r pdres) String() string {
-	if r.err {
-		return "err"
-	}
-	return i(r.p) + "," + i(r.l)
-}
-func parsePD(s string) pdres {
-	if s == "err" {
-		return pdres{err: true}
-	}
-	f := strings.Split(s, ",")
-	return pdres{p: pi(f[0]), l: pi(f[1])}
-}
-
-type pending struct {
-	r        pdres
-	assigned bool
-	ch       chan struct{}
-}
-
-var errPD = errors.New("scripted pd failure")
-
-type scriptPD struct {
-	pd.Client
-	mu            sync.Mutex
-	queue         []pdres         // answers for the next calls (seq class)
-	counter       func() pdres    // or a generator (sf/bg classes)
-	gated         bool            // GetTS blocks until release()
-	assignAtEntry bool            // gated calls receive their value when they arrive (else at release)
-	pend          []*pending
-	calls         int
-	ext           uint64 // external timestamp cell (pass-through)
-	ctxAborts     int // gated requests abandoned because the caller's context was done
-	exhausted     int
-}
-
-func (c *scriptPD) nextLocked() pdres {
-	if c.counter != nil {
-		return c.counter()
-	}
-	if len(c.queue) == 0 {
-		c.exhausted++
-		return pdres{err: true}
-	}
-	r := c.queue[0]
-	c.queue = c.queue[1:]
-	return r
-}
-func (c *scriptPD) WithCallerComponent(caller.Component) pd.Client { return c }
-func (c *scriptPD) GetTS(ctx context.Context) (int64, int64, error) {
-	if err := ctx.Err(); err != nil {
-		return 0, 0, err
-	}
-	c.mu.Lock()
-	c.calls++
-	if !c.gated {
-		r := c.nextLocked()
-		c.mu.Unlock()
-		if r.err {
-			return 0, 0, errPD
-		}
-		return r.p, r.l, nil
-	}
-	pc := &pending{ch: make(chan struct{})}
-	if c.assignAtEntry {
-		pc.r, pc.assigned = c.nextLocked(), true
-	}
-	c.pend = append(c.pend, pc)
-	c.mu.Unlock()
-	// like the real client, a gated request is abandoned when the caller's context is done
-	select {
-	case <-pc.ch:
-	case <-ctx.Done():
-		c.mu.Lock()
-		abandoned := false
-		for k, x := range c.pend {
-			if x == pc {
-				c.pend = append(c.pend[:k], c.pend[k+1:]...)
-				abandoned = true
-				break
-			}
-		}
-		c.ctxAborts++
-		c.mu.Unlock()
-		if abandoned {
-			return 0, 0, ctx.Err()
-		}
-		<-pc.ch // released concurrently: the answer is there
-	}
-	if pc.r.err {
-		return 0, 0, errPD
-	}
-	return pc.r.p, pc.r.l, nil
-}
-// pass-throughs: GetMinTS answers from the queue like GetTS; the external timestamp is a plain cell
-func (c *scriptPD) GetMinTS(ctx context.Context) (int64, int64, error) {
-	c.mu.Lock()
-	defer c.mu.Unlock()
-	r := c.nextLocked()
-	if r.err {
-		return 0, 0, errPD
-	}
-	return r.p, r.l, nil
-}
-func (c *scriptPD) SetExternalTimestamp(ctx context.Context, ts uint64) error {
-	c.mu.Lock()
-	defer c.mu.Unlock()
-	if ts == 0 {
-		return errPD
-	}
-	c.ext = ts
-	return nil
-}
-func (c *scriptPD) GetExternalTimestamp(ctx context.Context) (uint64, error) {
-	c.mu.Lock()
-	defer c.mu.Unlock()
-	return c.ext, nil
-}
-func (c *scriptPD) npending() int { c.mu.Lock(); defer c.mu.Unlock(); return len(c.pend) }
-func (c *scriptPD) release(fail bool) bool {
-	c.mu.Lock()
-	if len(c.pend) == 0 {
-		c.mu.Unlock()
-		return false
-	}
-	pc := c.pend[0]
-	c.pend = c.pend[1:]
-	if !pc.assigned {
-		pc.r = c.nextLocked()
-	}
-	if fail {
-		pc.r.err = true
-	}
-	c.mu.Unlock()
-	close(pc.ch)
-	return true
-}
-
-// releaseAll answers every gated request at the same instant; the answers of requests that have none yet are
-// assigned in the permuted order perm (responses reach the callers in an order unrelated to PD's order).
-func (c *scriptPD) releaseAll(r *rand.Rand) int {
-	c.mu.Lock()
-	ps := c.pend
-	c.pend = nil
-	r.Shuffle(len(ps), func(a, b int) { ps[a], ps[b] = ps[b], ps[a] })
-	for _, pc := range ps {
-		if !pc.assigned {
-			pc.r, pc.assigned = c.nextLocked(), true
-		}
-	}
-	c.mu.Unlock()
-	r.Shuffle(len(ps), func(a, b int) { ps[a], ps[b] = ps[b], ps[a] })
-	for _, pc := range ps {
-		close(pc.ch)
-	}
-	return len(ps)
-}
-
-type scriptFut struct {
-	r   pdres
-	ctx context.Context
-}
-
-func (f *scriptFut) Wait() (int64, int64, error) {
-	if err := f.ctx.Err(); err != nil {
-		return 0, 0, err
-	}
-	if f.r.err {
-		return 0, 0, errPD
-	}
-	return f.r.p, f.r.l, nil
-}
-func (c *scriptPD) GetTSAsync(ctx context.Context) tso.TSFuture {
-	c.mu.Lock()
-	defer c.mu.Unlock()
-	c.calls++
-	return &scriptFut{c.nextLocked(), ctx}
-}
 
 // ---------------------------------------------------------------- helpers
 var scopes = []string{"", "global", "dc1", "dc2"}
@@ -283,1181 +83,6 @@ func b01(b bool) string {
 	return "0"
 }
 
-// ---------------------------------------------------------------- class ar: arithmetic
-func execAr(f []string) {
-	switch f[1] {
-	case "compose":
-		p, l := pi(f[2]), pi(f[3])
-		ts := oracle.ComposeTS(p, l)
-		emit("ar", "compose", f[2], f[3], "=>", u(ts), i(oracle.ExtractPhysical(ts)), i(oracle.ExtractLogical(ts)))
-	case "ext":
-		ts := pu(f[2])
-		emit("ar", "ext", f[2], "=>", i(oracle.ExtractPhysical(ts)), i(oracle.ExtractLogical(ts)))
-	case "tsub":
-		a, b := pu(f[2]), pu(f[3])
-		emit("ar", "tsub", f[2], f[3], "=>", i(int64(oracle.GetTimeFromTS(a).Sub(oracle.GetTimeFromTS(b)))))
-	case "gotime":
-		ns := pi(f[2])
-		emit("ar", "gotime", f[2], "=>", u(oracle.GoTimeToTS(time.Unix(0, ns))))
-	}
-}
-
-// ---------------------------------------------------------------- class seq: one caller at a time
-type seqCase struct {
-	pdc  *scriptPD
-	o    oracle.Oracle
-	futs map[string]oracle.Future
-	t0   time.Time
-}
-
-var sc *seqCase
-
-func execSeq(f []string) {
-	op := f[1]
-	opt := func(s string) *oracle.Option { return &oracle.Option{TxnScope: scopes[pn(s)]} }
-	ctx := context.Background()
-	switch op {
-	case "begin": // id enabled initpd
-		if sc != nil && sc.o != nil {
-			sc.o.Close()
-		}
-		sc = &seqCase{pdc: &scriptPD{}, futs: map[string]oracle.Future{}, t0: time.Now()}
-		oracles.EnableTSValidation.Store(f[3] == "1")
-		sc.pdc.queue = []pdres{parsePD(f[4])}
-		o, err := oracles.NewPdOracle(sc.pdc, &oracles.PDOracleOptions{UpdateInterval: time.Hour, NoUpdateTS: true})
-		sc.o = o
-		emit("seq", "begin", f[2], f[3], f[4], "=>", b01(err == nil))
-	case "G": // scope pd
-		if sc.o == nil {
-			return
-		}
-		sc.pdc.queue = []pdres{parsePD(f[3])}
-		ts, err := sc.o.GetTimestamp(ctx, opt(f[2]))
-		emit("seq", "G", f[2], f[3], "=>", tsres(ts, err))
-	case "A": // fid scope pd
-		if sc.o == nil {
-			return
-		}
-		sc.pdc.queue = []pdres{parsePD(f[4])}
-		sc.futs[f[2]] = sc.o.GetTimestampAsync(ctx, opt(f[3]))
-		emit("seq", "A", f[2], f[3], f[4], "=>")
-	case "W": // fid
-		if sc.o == nil || sc.futs[f[2]] == nil {
-			return
-		}
-		ts, err := sc.futs[f[2]].Wait()
-		delete(sc.futs, f[2])
-		emit("seq", "W", f[2], "=>", tsres(ts, err))
-	case "L", "LA": // scope
-		if sc.o == nil {
-			return
-		}
-		var ts uint64
-		var err error
-		if op == "L" {
-			ts, err = sc.o.GetLowResolutionTimestamp(ctx, opt(f[2]))
-		} else {
-			ts, err = sc.o.GetLowResolutionTimestampAsync(ctx, opt(f[2])).Wait()
-		}
-		emit("seq", op, f[2], "=>", tsres(ts, err))
-	case "X": // scope lock ttl
-		if sc.o == nil {
-			return
-		}
-		lock, ttl := pu(f[3]), pu(f[4])
-		e := sc.o.IsExpired(lock, ttl, opt(f[2]))
-		un := sc.o.UntilExpired(lock, ttl, opt(f[2]))
-		emit("seq", "X", f[2], f[3], f[4], "=>", b01(e), i(un))
-	case "V": // scope read stale pd1 pd2
-		if sc.o == nil {
-			return
-		}
-		sc.pdc.queue = []pdres{parsePD(f[5]), parsePD(f[6])}
-		before := sc.pdc.calls
-		err := sc.o.ValidateReadTS(ctx, pu(f[3]), f[4] == "1", opt(f[2]))
-		emit("seq", "V", f[2], f[3], f[4], f[5], f[6], "=>", voutcome(err), strconv.Itoa(sc.pdc.calls-before))
-	case "S": // scope prev pd
-		if sc.o == nil {
-			return
-		}
-		sc.pdc.queue = []pdres{parsePD(f[4])}
-		before := sc.pdc.calls
-		lrBefore, lrErr := sc.o.GetLowResolutionTimestamp(ctx, opt(f[2]))
-		ts, err := sc.o.GetStaleTimestamp(ctx, scopes[pn(f[2])], pu(f[3]))
-		slack := time.Since(sc.t0).Milliseconds() + 2
-		r := "ok " + u(ts)
-		if err != nil {
-			switch {
-			case strings.Contains(err.Error(), "invalid prevSecond"):
-				r = "errprev"
-			case strings.Contains(err.Error(), "get stale timestamp fail"):
-				r = "errscope"
-			default:
-				r = "errpd"
-			}
-		}
-		emit("seq", "S", f[2], f[3], f[4], "=>", r, strconv.Itoa(sc.pdc.calls-before), i(slack), tsres(lrBefore, lrErr))
-	case "M": // pd — GetAllTSOKeyspaceGroupMinTS is a pass-through of PD's GetMinTS
-		if sc.o == nil {
-			return
-		}
-		sc.pdc.queue = []pdres{parsePD(f[2])}
-		ts, err := sc.o.GetAllTSOKeyspaceGroupMinTS(ctx)
-		emit("seq", "M", f[2], "=>", tsres(ts, err))
-	case "E": // ts — SetExternalTimestamp / GetExternalTimestamp are pass-throughs
-		if sc.o == nil {
-			return
-		}
-		err := sc.o.SetExternalTimestamp(ctx, pu(f[2]))
-		g, gerr := sc.o.GetExternalTimestamp(ctx)
-		emit("seq", "E", f[2], "=>", b01(err == nil), tsres(g, gerr))
-	case "I": // ns
-		if sc.o == nil {
-			return
-		}
-		err := sc.o.SetLowResolutionTimestampUpdateInterval(time.Duration(pi(f[2])))
-		emit("seq", "I", f[2], "=>", b01(err == nil))
-	}
-}
-
-// ---------------------------------------------------------------- class sf: concurrent validators, gated PD
-type sfCase struct {
-	pdc       *scriptPD
-	o         oracle.Oracle
-	k         int64
-	base      uint64
-	stride    uint64
-	mu        sync.Mutex
-	res       map[int]string
-	spawned   int
-	cancels   map[int]context.CancelFunc
-	blockedOn map[int]bool // threads known blocked on the current flight
-	cancelled int          // cancelled while blocked on the current flight
-}
-
-var sf *sfCase
-var sfBroken bool // a quiescence wait timed out: the remaining sf steps are not executed
-
-func (c *sfCase) pdAt(k int64) uint64 { return c.base + uint64(k)*c.stride }
-func (c *sfCase) finished() int      { c.mu.Lock(); defer c.mu.Unlock(); return len(c.res) }
-func (c *sfCase) quiesce() bool {
-	deadline := time.Now().Add(5 * time.Second)
-	for n := 0; ; n++ {
-		fin := c.finished()
-		np := c.pdc.npending()
-		present, dups := oracles.VerifFlightDups(c.o, "global")
-		blocked := 0
-		if present && np > 0 {
-			blocked = 1 + dups - c.cancelled
-		}
-		if !present && np == 0 && fin == c.spawned {
-			return true
-		}
-		if present && np > 0 && fin+blocked == c.spawned {
-			return true
-		}
-		if time.Now().After(deadline) {
-			return false
-		}
-		if n < 200 {
-			runtime.Gosched()
-		} else {
-			time.Sleep(50 * time.Microsecond)
-		}
-	}
-}
-func (c *sfCase) state() []string {
-	c.mu.Lock()
-	defer c.mu.Unlock()
-	var r []string
-	for t := 0; t < c.spawned; t++ {
-		if s, ok := c.res[t]; ok {
-			r = append(r, s)
-		} else {
-			r = append(r, "blocked")
-		}
-	}
-	lr, err := c.o.GetLowResolutionTimestamp(context.Background(), &oracle.Option{TxnScope: "global"})
-	c.pdc.mu.Lock()
-	k, aborts := c.k, c.pdc.ctxAborts
-	c.pdc.mu.Unlock()
-	// 4th field: PD requests abandoned because the context they were issued under was cancelled
-	return []string{strings.Join(r, ";"), tsres(lr, err), strconv.FormatInt(k, 10), strconv.Itoa(aborts)}
-}
-func execSf(f []string) {
-	op := f[1]
-	if sfBroken && op != "begin" {
-		emit("sf", op, "=>", "timeout", "-", "0", "0")
-		return
-	}
-	fin := func(in ...string) {
-		ok := sf.quiesce()
-		st := sf.state()
-		if !ok {
-			st = []string{"timeout", "-", "0", "0"}
-			sfBroken = true
-		}
-		emit(append(append(append([]string{"sf"}, in...), "=>"), st...)...)
-	}
-	switch op {
-	case "begin": // id mode base stride
-		if sfBroken {
-			emit(append([]string{"sf"}, append(f[1:], "=>")...)...)
-			return
-		}
-		if sf != nil && sf.o != nil {
-			sf.o.Close()
-		}
-		oracles.EnableTSValidation.Store(true)
-		sf = &sfCase{pdc: &scriptPD{}, base: pu(f[4]), stride: pu(f[5]), res: map[int]string{}, cancels: map[int]context.CancelFunc{}}
-		c := sf
-		c.pdc.assignAtEntry = f[3] == "E"
-		c.pdc.counter = func() pdres {
-			ts := c.pdAt(c.k)
-			c.k++
-			return pdres{p: oracle.ExtractPhysical(ts), l: oracle.ExtractLogical(ts)}
-		}
-		o, err := oracles.NewPdOracle(c.pdc, &oracles.PDOracleOptions{UpdateInterval: time.Hour, NoUpdateTS: true})
-		if err != nil {
-			panic(err)
-		}
-		c.o = o
-		c.pdc.mu.Lock()
-		c.pdc.gated = true
-		c.pdc.mu.Unlock()
-		emit(append([]string{"sf"}, append(f[1:], "=>")...)...)
-	case "issue":
-		sf.pdc.mu.Lock()
-		sf.pdc.nextLocked()
-		sf.pdc.mu.Unlock()
-		fin("issue")
-	case "publish":
-		_, err := sf.o.GetTimestampAsync(context.Background(), &oracle.Option{TxnScope: "global"}).Wait()
-		if err != nil {
-			panic(err)
-		}
-		fin("publish")
-	case "spawn": // t read stale
-		t := sf.spawned
-		sf.spawned++
-		ctx, cancel := context.WithCancel(context.Background())
-		sf.cancels[t] = cancel
-		read, stale := pu(f[3]), f[4] == "1"
-		c := sf
-		go func() {
-			err := c.o.ValidateReadTS(ctx, read, stale, &oracle.Option{TxnScope: "global"})
-			c.mu.Lock()
-			c.res[t] = voutcome(err)
-			c.mu.Unlock()
-		}()
-		fin("spawn", strconv.Itoa(t), f[3], f[4])
-	case "release": // ok|err
-		if !sf.pdc.release(f[2] == "err") {
-			return
-		}
-		sf.cancelled = 0
-		fin("release", f[2])
-	case "cancel": // t
-		t := pn(f[2])
-		sf.mu.Lock()
-		_, done := sf.res[t]
-		sf.mu.Unlock()
-		if done || t >= sf.spawned {
-			return
-		}
-		sf.cancels[t]()
-		// the thread is blocked on the current flight (quiescent state): wait for it to return
-		for d := time.Now().Add(10 * time.Second); time.Now().Before(d); {
-			sf.mu.Lock()
-			_, done = sf.res[t]
-			sf.mu.Unlock()
-			if done {
-				break
-			}
-			runtime.Gosched()
-		}
-		sf.cancelled++
-		fin("cancel", f[2])
-	case "end":
-		// let every blocked validator finish so that no goroutine outlives the case
-		for sf.pdc.npending() > 0 {
-			sf.pdc.release(false)
-			sf.cancelled = 0
-			sf.quiesce()
-		}
-		fin("end")
-	}
-}
-
-// ---------------------------------------------------------------- class cw: commit wait
-func execCw(f []string) { // registrations(comma list) timeout_ns script
-	var regs []uint64
-	for _, x := range strings.Split(f[1], ",") {
-		regs = append(regs, pu(x))
-	}
-	to := pi(f[2])
-	var script []string
-	if f[3] != "-" {
-		script = strings.Split(f[3], ",")
-	}
-	idx := 0
-	fn := func() (uint64, error) {
-		if idx >= len(script) {
-			idx++
-			return 0, errors.New("script exhausted")
-		}
-		s := script[idx]
-		idx++
-		if s == "err" {
-			return 0, errors.New("pd error")
-		}
-		return pu(s), nil
-	}
-	ts, err, lag, calls, eff := transaction.VerifCommitWait(fn, regs, time.Duration(to))
-	r := "ok " + u(ts)
-	if err != nil {
-		r = "errother"
-		if lag {
-			r = "errlag"
-		}
-	}
-	emit("cw", f[1], f[2], f[3], "=>", r, strconv.Itoa(calls), u(eff))
-	_ = tikverr.ErrCommitTSLag
-}
-
-// ---------------------------------------------------------------- class lo: local oracle with a fixed clock
-var lo oracle.Oracle
-
-func execLo(f []string) {
-	switch f[1] {
-	case "begin":
-		lo = oracles.NewLocalOracle()
-		emit("lo", "begin", "=>")
-	case "G": // now_ns
-		oracles.VerifSetLocalHook(lo, time.Unix(0, pi(f[2])))
-		ts, err := lo.GetTimestamp(context.Background(), &oracle.Option{})
-		emit("lo", "G", f[2], "=>", tsres(ts, err))
-	case "X": // now_ns lock ttl
-		oracles.VerifSetLocalHook(lo, time.Unix(0, pi(f[2])))
-		lock, ttl := pu(f[3]), pu(f[4])
-		emit("lo", "X", f[2], f[3], f[4], "=>", b01(lo.IsExpired(lock, ttl, &oracle.Option{})), i(lo.UntilExpired(lock, ttl, &oracle.Option{})))
-	}
-}
-
-// ---------------------------------------------------------------- class bg: concurrent runs, property oracles only
-type rec struct {
-	inv, ret int64
-	ts       uint64
-}
-
-func pline(name string, pass bool, detail ...string) {
-	v := "pass"
-	if !pass {
-		v = "fail"
-	}
-	emit(append(append([]string{"P", name}, detail...), v)...)
-}
-
-// execBg: seed getters readers validators durationMs intervalUs
-func execBg(f []string) {
-	emit(append(append([]string{}, f...), "=>")...) // echo of the input line: the replayable case of the P lines below
-	seed := pi(f[1])
-	nget, nread, nval := pn(f[2]), pn(f[3]), pn(f[4])
-	dur := time.Duration(pn(f[5])) * time.Millisecond
-	interval := time.Duration(pn(f[6])) * time.Microsecond
-	oracles.EnableTSValidation.Store(true)
-	var clk atomic.Int64 // event counter = real-time order witness
-	var issuedMu sync.Mutex
-	issuedSet := map[uint64]bool{}
-	var maxIssued atomic.Uint64
-	var lastPhys, lastLog int64
-	pdc := &scriptPD{}
-	pdc.counter = func() pdres { // called under pdc.mu: strictly increasing, physical follows the wall clock
-		ph := time.Now().UnixMilli()
-		if ph <= lastPhys {
-			ph = lastPhys
-			lastLog++
-		} else {
-			lastPhys, lastLog = ph, 0
-		}
-		ts := oracle.ComposeTS(ph, lastLog)
-		issuedMu.Lock()
-		issuedSet[ts] = true
-		issuedMu.Unlock()
-		maxIssued.Store(ts)
-		return pdres{p: ph, l: lastLog}
-	}
-	o, err := oracles.NewPdOracle(pdc, &oracles.PDOracleOptions{UpdateInterval: interval})
-	if err != nil {
-		panic(err)
-	}
-	opt := &oracle.Option{TxnScope: "global"}
-	ctx := context.Background()
-	stop := make(chan struct{})
-	var wg sync.WaitGroup
-	var mu sync.Mutex
-	var recs []rec
-	fails := map[string]string{}
-	fail := func(name, detail string) {
-		mu.Lock()
-		if _, ok := fails[name]; !ok {
-			fails[name] = detail
-		}
-		mu.Unlock()
-	}
-	counts := map[string]*atomic.Int64{"get": {}, "read": {}, "val_acc": {}, "val_rej": {}, "val_issued": {}}
-	for g := 0; g < nget; g++ {
-		wg.Add(1)
-		go func(g int) {
-			defer wg.Done()
-			r := rand.New(rand.NewSource(seed*1000 + int64(g)))
-			var mine []rec
-			for {
-				select {
-				case <-stop:
-					mu.Lock()
-					recs = append(recs, mine...)
-					mu.Unlock()
-					return
-				default:
-				}
-				inv := clk.Add(1)
-				var ts uint64
-				var err error
-				if r.Intn(2) == 0 {
-					ts, err = o.GetTimestamp(ctx, opt)
-				} else {
-					fu := o.GetTimestampAsync(ctx, opt)
-					if r.Intn(3) == 0 {
-						runtime.Gosched()
-					}
-					ts, err = fu.Wait()
-				}
-				ret := clk.Add(1)
-				if err == nil {
-					mine = append(mine, rec{inv, ret, ts})
-					counts["get"].Add(1)
-					// the cached value has caught up with what this call returned
-					lr, _ := o.GetLowResolutionTimestamp(ctx, opt)
-					if lr < ts {
-						fail("lowres_catches_up", fmt.Sprintf("lowres %x after GetTimestamp returned %x", lr, ts))
-					}
-				}
-				if r.Intn(50) == 0 {
-					_ = o.SetLowResolutionTimestampUpdateInterval(time.Duration(200+r.Intn(3000)) * time.Microsecond * time.Duration(1+999*r.Intn(2)))
-				}
-				if r.Intn(4) == 0 {
-					time.Sleep(time.Duration(r.Intn(200)) * time.Microsecond)
-				}
-			}
-		}(g)
-	}
-	for g := 0; g < nread; g++ {
-		wg.Add(1)
-		go func(g int) {
-			defer wg.Done()
-			var prev uint64
-			for {
-				select {
-				case <-stop:
-					return
-				default:
-				}
-				lr, err := o.GetLowResolutionTimestamp(ctx, opt)
-				mx := maxIssued.Load()
-				if err != nil {
-					fail("lowres_available", err.Error())
-					continue
-				}
-				counts["read"].Add(1)
-				if lr < prev {
-					fail("lowres_monotone", fmt.Sprintf("%x after %x", lr, prev))
-				}
-				if lr > mx {
-					fail("lowres_le_max_issued", fmt.Sprintf("%x > %x", lr, mx))
-				}
-				issuedMu.Lock()
-				okIn := issuedSet[lr]
-				issuedMu.Unlock()
-				if !okIn {
-					fail("lowres_in_issued", fmt.Sprintf("%x", lr))
-				}
-				prev = lr
-				if g%2 == 0 {
-					runtime.Gosched()
-				}
-			}
-		}(g)
-	}
-	for g := 0; g < nval; g++ {
-		wg.Add(1)
-		go func(g int) {
-			defer wg.Done()
-			r := rand.New(rand.NewSource(seed*7777 + int64(g)))
-			for {
-				select {
-				case <-stop:
-					return
-				default:
-				}
-				before := maxIssued.Load() // issued before the call begins
-				var read uint64
-				kind := r.Intn(4)
-				switch kind {
-				case 0:
-					read = before
-				case 1:
-					read = before + uint64(1+r.Intn(3)) // may or may not have been issued by the time the call ends
-				case 2:
-					read = before + 1<<40 // far future: never issued
-				case 3:
-					read = before - uint64(r.Intn(1<<20))
-				}
-				err := o.ValidateReadTS(ctx, read, r.Intn(2) == 0, opt)
-				after := maxIssued.Load()
-				oc := voutcome(err)
-				if read <= before {
-					counts["val_issued"].Add(1)
-					if oc != "accept" {
-						fail("validate_accept_complete", fmt.Sprintf("read %x <= issued-before %x: %s", read, before, oc))
-					}
-				}
-				if oc == "accept" {
-					counts["val_acc"].Add(1)
-					if read > after {
-						fail("validate_reject_sound", fmt.Sprintf("accepted %x > max issued at return %x", read, after))
-					}
-				} else if strings.HasPrefix(oc, "reject") {
-					counts["val_rej"].Add(1)
-				} else {
-					fail("validate_no_error", oc)
-				}
-				time.Sleep(time.Duration(r.Intn(300)) * time.Microsecond)
-			}
-		}(g)
-	}
-	time.Sleep(dur)
-	close(stop)
-	wg.Wait()
-	o.Close()
-	// real-time order: a returned before b was invoked  =>  ts(a) < ts(b)
-	sort.Slice(recs, func(a, b int) bool { return recs[a].inv < recs[b].inv })
-	byRet := append([]rec(nil), recs...)
-	sort.Slice(byRet, func(a, b int) bool { return byRet[a].ret < byRet[b].ret })
-	var maxRet uint64
-	j := 0
-	rtOK, pairs := true, 0
-	detail := ""
-	for _, b := range recs {
-		for j < len(byRet) && byRet[j].ret < b.inv {
-			if byRet[j].ts > maxRet {
-				maxRet = byRet[j].ts
-			}
-			j++
-		}
-		if j > 0 {
-			pairs++
-			if maxRet >= b.ts && rtOK {
-				rtOK = false
-				detail = fmt.Sprintf("a call returning %x completed before the invocation of a call returning %x", maxRet, b.ts)
-			}
-		}
-	}
-	issuedMu.Lock()
-	inIssued := true
-	for _, r := range recs {
-		if !issuedSet[r.ts] {
-			inIssued = false
-			detail += fmt.Sprintf(" returned %x never issued", r.ts)
-		}
-	}
-	issuedMu.Unlock()
-	pline("bg_realtime_strict", rtOK, f[1], strconv.Itoa(pairs), detail)
-	pline("bg_returned_is_pd_value", inIssued, f[1], strconv.Itoa(len(recs)))
-	for _, name := range []string{"lowres_catches_up", "lowres_available", "lowres_monotone", "lowres_le_max_issued", "lowres_in_issued", "validate_accept_complete", "validate_reject_sound", "validate_no_error"} {
-		d, bad := fails[name]
-		pline("bg_"+name, !bad, f[1], d)
-	}
-	emit("bg", "counts", f[1], "=>", fmt.Sprintf("get=%d read=%d val_acc=%d val_rej=%d val_issued=%d pairs=%d",
-		counts["get"].Load(), counts["read"].Load(), counts["val_acc"].Load(), counts["val_rej"].Load(), counts["val_issued"].Load(), pairs))
-}
-
-// execSt: CAS stress on setLastTS: seed goroutines perG — monitor = the invariant of C13_lastts_monotone
-func execSt(f []string) {
-	emit(append(append([]string{}, f...), "=>")...) // echo of the input line: the replayable case of the P lines below
-	seed, ng, per := pi(f[1]), pn(f[2]), pn(f[3])
-	pdc := &scriptPD{}
-	base := uint64(1) << 40
-	pdc.queue = []pdres{{p: oracle.ExtractPhysical(base), l: 0}}
-	o, err := oracles.NewPdOracle(pdc, &oracles.PDOracleOptions{UpdateInterval: time.Hour, NoUpdateTS: true})
-	if err != nil {
-		panic(err)
-	}
-	opt := &oracle.Option{TxnScope: "global"}
-	// directed: a published record whose arrival is later than the next caller's clock reading (the caller was
-	// descheduled between time.Now() and the CAS): the newer timestamp must keep the later arrival
-	{
-		late := time.Now().Add(time.Hour)
-		oracles.VerifStoreLast(o, base, late)
-		oracles.VerifSetLastTS(o, base+1, "global")
-		a1, _ := oracles.VerifLastArrival(o, "global")
-		oracles.VerifSetLastTS(o, base, "global") // older ts: record untouched
-		a2, _ := oracles.VerifLastArrival(o, "global")
-		lr, _ := o.GetLowResolutionTimestamp(context.Background(), opt)
-		pline("arrival_never_goes_back", !a1.Before(late) && a2.Equal(a1) && lr == base+1, f[1], fmt.Sprint(a1.Sub(late)))
-		oracles.VerifStoreLast(o, base, time.Now())
-	}
-	vals := make([][]uint64, ng)
-	set := map[uint64]bool{base: true}
-	var mx uint64 = base
-	r := rand.New(rand.NewSource(seed))
-	for g := range vals {
-		for k := 0; k < per; k++ {
-			v := base + uint64(r.Intn(ng*per*2))
-			vals[g] = append(vals[g], v)
-			set[v] = true
-			if v > mx {
-				mx = v
-			}
-		}
-	}
-	var wg sync.WaitGroup
-	stop := make(chan struct{})
-	var bad atomic.Value
-	var reads atomic.Int64
-	var mwg sync.WaitGroup
-	for m := 0; m < 2; m++ {
-		mwg.Add(1)
-		go func() {
-			defer mwg.Done()
-			var prev uint64
-			var prevArr time.Time
-			for {
-				if a, ok := oracles.VerifLastArrival(o, "global"); ok {
-					if a.Before(prevArr) || a.After(time.Now()) {
-						bad.Store(fmt.Sprintf("arrival went back or lies in the future: %v after %v", a, prevArr))
-					}
-					prevArr = a
-				}
-				lr, err := o.GetLowResolutionTimestamp(context.Background(), opt)
-				if err != nil || lr < prev || !set[lr] {
-					bad.Store(fmt.Sprintf("lowres %x after %x (err %v, member %v)", lr, prev, err, set[lr]))
-				}
-				prev = lr
-				reads.Add(1)
-				select {
-				case <-stop:
-					return
-				default:
-				}
-			}
-		}()
-	}
-	for g := 0; g < ng; g++ {
-		wg.Add(1)
-		go func(g int) {
-			defer wg.Done()
-			for _, v := range vals[g] {
-				oracles.VerifSetLastTS(o, v, []string{"", "global"}[g%2])
-				lr, _ := o.GetLowResolutionTimestamp(context.Background(), opt)
-				if lr < v {
-					bad.Store(fmt.Sprintf("lowres %x right after setLastTS(%x)", lr, v))
-				}
-			}
-		}(g)
-	}
-	wg.Wait()
-	close(stop)
-	mwg.Wait()
-	final, _ := o.GetLowResolutionTimestamp(context.Background(), opt)
-	b, _ := bad.Load().(string)
-	pline("st_invariant", b == "", f[1], b)
-	pline("st_final_is_max", final == mx, f[1], u(final), u(mx))
-	emit("st", "counts", f[1], "=>", fmt.Sprintf("sets=%d reads=%d", ng*per, reads.Load()))
-	o.Close()
-}
-
-// execMo: MockOracle — strictly increasing, expiry answers far from the boundary
-func execMo(f []string) {
-	emit(append(append([]string{}, f...), "=>")...) // echo of the input line: the replayable case of the P lines below
-	n := pn(f[1])
-	mo := &oracles.MockOracle{}
-	var prev uint64
-	ok := true
-	for k := 0; k < n; k++ {
-		ts, err := mo.GetTimestamp(context.Background(), &oracle.Option{})
-		if err != nil || ts <= prev {
-			ok = false
-		}
-		prev = ts
-		if k%7 == 0 {
-			mo.AddOffset(time.Millisecond)
-		}
-	}
-	pline("mock_strictly_increasing", ok, f[1])
-	now := oracle.GoTimeToTS(time.Now())
-	hour := uint64(3600*1000) << 18
-	cons := true
-	for _, c := range []struct {
-		lock, ttl uint64
-		exp       bool
-	}{{now - hour, 1000, true}, {now - hour, 0, true}, {now + hour, 1000, false}, {now, 3600 * 1000, false}, {now - 2*hour, 3600 * 1000, true}} {
-		e := mo.IsExpired(c.lock, c.ttl, &oracle.Option{})
-		un := mo.UntilExpired(c.lock, c.ttl, &oracle.Option{})
-		if e != c.exp || (un <= 0) != c.exp {
-			cons = false
-		}
-	}
-	pline("mock_expiry_consistent", cons, f[1])
-	// local / mock oracle under concurrency: real-time order of returns (a call that returned before another was
-	// invoked returned a smaller ts), all values distinct; external timestamp never decreases, never beyond the oracle
-	for name, mk := range map[string]func() oracle.Oracle{"local": oracles.NewLocalOracle, "mock": func() oracle.Oracle { return &oracles.MockOracle{} }} {
-		oc := mk()
-		var clk atomic.Int64
-		var mu sync.Mutex
-		var recs []rec
-		var wg sync.WaitGroup
-		var extBad atomic.Value
-		stop := make(chan struct{})
-		var rwg sync.WaitGroup
-		rwg.Add(1)
-		go func() {
-			defer rwg.Done()
-			var prev uint64
-			for {
-				e, _ := oc.GetExternalTimestamp(context.Background())
-				if e < prev {
-					extBad.Store(fmt.Sprintf("external ts %x after %x", e, prev))
-				}
-				prev = e
-				select {
-				case <-stop:
-					return
-				default:
-					runtime.Gosched()
-				}
-			}
-		}()
-		for g := 0; g < 6; g++ {
-			wg.Add(1)
-			go func(g int) {
-				defer wg.Done()
-				var mine []rec
-				for k := 0; k < n; k++ {
-					inv := clk.Add(1)
-					var ts uint64
-					var err error
-					switch k % 3 {
-					case 0:
-						ts, err = oc.GetTimestamp(context.Background(), &oracle.Option{})
-					case 1:
-						ts, err = oc.GetTimestampAsync(context.Background(), &oracle.Option{}).Wait()
-					default:
-						ts, err = oc.GetLowResolutionTimestamp(context.Background(), &oracle.Option{})
-					}
-					ret := clk.Add(1)
-					if err == nil {
-						mine = append(mine, rec{inv, ret, ts})
-					}
-					if k%11 == 0 {
-						// an external ts taken from an earlier result is accepted or refused as "cannot decrease"; a future one is refused
-						if e := oc.SetExternalTimestamp(context.Background(), ts+uint64(1)<<40); e == nil {
-							extBad.Store(fmt.Sprintf("external ts beyond the oracle accepted: %x", ts+uint64(1)<<40))
-						}
-						_ = oc.SetExternalTimestamp(context.Background(), ts)
-					}
-				}
-				mu.Lock()
-				recs = append(recs, mine...)
-				mu.Unlock()
-			}(g)
-		}
-		wg.Wait()
-		close(stop)
-		rwg.Wait()
-		sort.Slice(recs, func(a, b int) bool { return recs[a].inv < recs[b].inv })
-		byRet := append([]rec(nil), recs...)
-		sort.Slice(byRet, func(a, b int) bool { return byRet[a].ret < byRet[b].ret })
-		var maxRet uint64
-		j, okRT, detail := 0, true, ""
-		seen := map[uint64]bool{}
-		for _, b := range recs {
-			for j < len(byRet) && byRet[j].ret < b.inv {
-				if byRet[j].ts > maxRet {
-					maxRet = byRet[j].ts
-				}
-				j++
-			}
-			if j > 0 && maxRet >= b.ts && okRT {
-				okRT, detail = false, fmt.Sprintf("a call returning %x completed before the invocation of a call returning %x", maxRet, b.ts)
-			}
-			if seen[b.ts] && okRT {
-				okRT, detail = false, fmt.Sprintf("timestamp %x returned twice", b.ts)
-			}
-			seen[b.ts] = true
-		}
-		pline(name+"_realtime_strict_concurrent", okRT, f[1], strconv.Itoa(len(recs)), detail)
-		eb, _ := extBad.Load().(string)
-		pline(name+"_external_ts_monotone", eb == "", f[1], eb)
-	}
-}
-
-// ---------------------------------------------------------------- class iv: interval record; class sl: stale ts
-func execIv(f []string) {
-	switch f[1] {
-	case "next": // cfg ada lastShortMs lastTick state now req
-		r, a, st := oracles.VerifNextInterval(pi(f[2]), pi(f[3]), pi(f[4]), pi(f[5]), pn(f[6]), pi(f[7]), pi(f[8]))
-		emit(append(append([]string{}, f...), "=>", i(r), i(a), strconv.Itoa(st))...)
-	case "set": // cfg ada new
-		ok, c, a := oracles.VerifSetInterval(pi(f[2]), pi(f[3]), pi(f[4]))
-		emit(append(append([]string{}, f...), "=>", b01(ok), i(c), i(a))...)
-	case "adj": // cfg ada lastShortMs read cur now
-		ls, sent := oracles.VerifAdjust(pi(f[2]), pi(f[3]), pi(f[4]), pu(f[5]), pu(f[6]), pi(f[7]))
-		emit(append(append([]string{}, f...), "=>", i(ls), i(sent))...)
-	}
-}
-func execSl(f []string) { // physOffsetMs(before now, signed) logical arrivalOffsetNs prev
-	tso := oracle.ComposeTS(time.Now().UnixMilli()-pi(f[1]), pi(f[2]))
-	var prev uint64
-	if strings.HasPrefix(f[4], "s") { // relative to the record's physical second (the guard's boundary)
-		d, _ := strconv.Atoi(f[4][1:])
-		prev = uint64(oracle.ExtractPhysical(tso)/1000 + int64(d))
-	} else {
-		prev = pu(f[4])
-	}
-	ts, err, before, arr, after := oracles.VerifStale(tso, pi(f[3]), prev)
-	r := "ok " + u(ts)
-	if err != nil {
-		r = "errprev"
-	}
-	emit("sl", f[1], f[2], f[3], f[4], "=>", r, u(tso), u(prev), i(before), i(arr), i(after))
-}
-
-// ---------------------------------------------------------------- class fs: concurrent FIRST users of fresh txn scopes
-// execFs: seed maxRounds budgetMs — every round uses a txn scope never seen before ("dc-<seed>-<round>"); 2..8 callers
-// obtain their first timestamps of that scope (GetTimestamp through the gated PD, or a future waited at the release
-// instant), all answers are released at once in permuted order; readers poll GetLowResolutionTimestamp meanwhile.
-// Monitors (the invariant of C13_fresh_scope / C13_lastts_monotone): every reader's sequence is non-decreasing and
-// <= max issued; after a caller returned ts the cached value is >= ts; the final value is the maximum.
-func execFs(f []string) {
-	emit(append(append([]string{}, f...), "=>")...) // echo of the input line: the replayable case of the P lines below
-	seed, maxRounds, budget := pi(f[1]), pn(f[2]), time.Duration(pn(f[3]))*time.Millisecond
-	if runtime.GOMAXPROCS(0) < 8 {
-		defer runtime.GOMAXPROCS(runtime.GOMAXPROCS(8))
-	}
-	oracles.EnableTSValidation.Store(true)
-	r := rand.New(rand.NewSource(seed))
-	base := uint64(1700000000000) << 18
-	var k int64
-	var maxIssued atomic.Uint64
-	pdc := &scriptPD{}
-	pdc.counter = func() pdres {
-		ts := base + uint64(k)
-		k++
-		maxIssued.Store(ts)
-		return pdres{p: oracle.ExtractPhysical(ts), l: oracle.ExtractLogical(ts)}
-	}
-	o, err := oracles.NewPdOracle(pdc, &oracles.PDOracleOptions{UpdateInterval: time.Hour, NoUpdateTS: true})
-	if err != nil {
-		panic(err)
-	}
-	defer o.Close()
-	ctx := context.Background()
-	deadline := time.Now().Add(budget)
-	rounds, callers, reads := 0, 0, 0
-	failName, failDetail := "", ""
-	for rounds < maxRounds && time.Now().Before(deadline) && failName == "" {
-		scope := fmt.Sprintf("dc-%d-%d", seed, rounds)
-		opt := &oracle.Option{TxnScope: scope}
-		n := 2 + r.Intn(7)
-		nfut := r.Intn(n) // this many callers use GetTimestampAsync + Wait
-		pdc.mu.Lock()
-		pdc.gated, pdc.assignAtEntry = true, r.Intn(2) == 0
-		pdc.mu.Unlock()
-		got := make([]uint64, n)
-		seen := make([]uint64, n)
-		start := make(chan struct{})
-		var wg sync.WaitGroup
-		for w := 0; w < n; w++ {
-			wg.Add(1)
-			var fut oracle.Future
-			if w < nfut {
-				fut = o.GetTimestampAsync(ctx, opt) // PD's answer is fixed now, it reaches the caller at the release
-			}
-			go func(w int, fut oracle.Future) {
-				defer wg.Done()
-				var ts uint64
-				var err error
-				if fut != nil {
-					<-start
-					ts, err = fut.Wait()
-				} else {
-					ts, err = o.GetTimestamp(ctx, opt)
-				}
-				if err == nil {
-					got[w] = ts
-					seen[w], _ = o.GetLowResolutionTimestamp(ctx, opt)
-				}
-			}(w, fut)
-		}
-		stop := make(chan struct{})
-		var rwg sync.WaitGroup
-		nread := 1 + r.Intn(2)
-		seqs := make([][]uint64, nread)
-		bad := make([]string, nread)
-		for q := 0; q < nread; q++ {
-			rwg.Add(1)
-			go func(q int) {
-				defer rwg.Done()
-				var prev uint64
-				for {
-					lr, err := o.GetLowResolutionTimestamp(ctx, opt)
-					mx := maxIssued.Load()
-					if err == nil {
-						if len(seqs[q]) == 0 || seqs[q][len(seqs[q])-1] != lr {
-							seqs[q] = append(seqs[q], lr)
-						}
-						if lr < prev && bad[q] == "" {
-							bad[q] = fmt.Sprintf("reader %d observed %x after %x", q, lr, prev)
-						}
-						if lr > mx && bad[q] == "" {
-							bad[q] = fmt.Sprintf("reader %d observed %x > max issued %x", q, lr, mx)
-						}
-						prev = lr
-					}
-					select {
-					case <-stop:
-						return
-					default:
-					}
-				}
-			}(q)
-		}
-		for pdc.npending() < n-nfut { // barrier: every GetTimestamp caller is waiting for PD
-			runtime.Gosched()
-		}
-		close(start)
-		pdc.releaseAll(r)
-		wg.Wait()
-		final, ferr := o.GetLowResolutionTimestamp(ctx, opt)
-		close(stop)
-		rwg.Wait()
-		pdc.mu.Lock()
-		pdc.gated = false
-		pdc.mu.Unlock()
-		rounds++
-		callers += n
-		var mx uint64
-		for w := 0; w < n; w++ {
-			if got[w] > mx {
-				mx = got[w]
-			}
-		}
-		desc := fmt.Sprintf("round %d scope %s callers %d (futures %d) returned %x observed-after-return %x final %x reader sequences %x", rounds-1, scope, n, nfut, got, seen, final, seqs)
-		for q := range bad {
-			reads += len(seqs[q])
-			if bad[q] != "" && failName == "" {
-				failName, failDetail = "fs_lowres_monotone_and_bounded", bad[q]+" | "+desc
-			}
-		}
-		for w := 0; w < n && failName == ""; w++ {
-			switch {
-			case got[w] == 0:
-				failName, failDetail = "fs_call_succeeds", desc
-			case seen[w] < got[w]:
-				failName, failDetail = "fs_lowres_catches_up", fmt.Sprintf("caller %d returned %x, cached value right after is %x | %s", w, got[w], seen[w], desc)
-			case final < seen[w]:
-				failName, failDetail = "fs_lowres_monotone_and_bounded", fmt.Sprintf("a reader observed %x, a later reader observes %x | %s", seen[w], final, desc)
-			}
-		}
-		if failName == "" && (ferr != nil || final != mx) {
-			failName, failDetail = "fs_final_is_max", desc
-		}
-		if failName == "" && rounds%16 == 0 {
-			// validation / expiry / stale ts on the fresh scope use the cached value: a returned ts needs no PD round trip
-			before := pdc.calls
-			verr := o.ValidateReadTS(ctx, mx, r.Intn(2) == 0, opt)
-			if verr != nil || pdc.calls != before {
-				failName, failDetail = "fs_validate_from_cache", fmt.Sprintf("ValidateReadTS(%x): %v, PD calls %d | %s", mx, verr, pdc.calls-before, desc)
-			}
-			if e, un := o.IsExpired(mx, 0, opt), o.UntilExpired(mx, 0, opt); !e || un > 0 {
-				failName, failDetail = "fs_expiry_from_cache", fmt.Sprintf("IsExpired(%x,0)=%v UntilExpired=%d | %s", mx, e, un, desc)
-			}
-			if st, serr := o.GetStaleTimestamp(ctx, scope, 0); serr != nil || oracle.ExtractPhysical(st) < oracle.ExtractPhysical(mx) {
-				failName, failDetail = "fs_stale_from_cache", fmt.Sprintf("GetStaleTimestamp(0)=%x,%v | %s", st, serr, desc)
-			}
-		}
-	}
-	for _, name := range []string{"fs_lowres_monotone_and_bounded", "fs_lowres_catches_up", "fs_final_is_max", "fs_call_succeeds", "fs_validate_from_cache", "fs_expiry_from_cache", "fs_stale_from_cache"} {
-		d := ""
-		if name == failName {
-			d = failDetail
-		}
-		pline(name, name != failName, f[1], d)
-	}
-	emit("fs", "counts", f[1], "=>", fmt.Sprintf("rounds=%d callers=%d distinct_reader_observations=%d", rounds, callers, reads))
-}
-
-// ---------------------------------------------------------------- class rf: the background refresher as a further writer
-// execRf: seed rounds nscopes — the oracle runs its real updateTS goroutine (1ms interval) against the gated PD
-// (answer assigned when the request arrives). Each round: wait until a refresher request is held back, let
-// foreground callers obtain and cache LATER timestamps on every scope (futures, not gated), then answer the
-// refresher; when its next request arrives the previous doUpdate step is finished: no scope's cached value may
-// have moved back. Readers poll GetLowResolutionTimestamp on every scope throughout (monotone, <= max issued).
-func execRf(f []string) {
-	emit(append(append([]string{}, f...), "=>")...)
-	seed, rounds, nsc := pi(f[1]), pn(f[2]), pn(f[3])
-	r := rand.New(rand.NewSource(seed))
-	base := uint64(1700000000000) << 18
-	var k int64
-	var maxIssued atomic.Uint64
-	pdc := &scriptPD{assignAtEntry: true}
-	pdc.counter = func() pdres {
-		ts := base + uint64(k)
-		k++
-		maxIssued.Store(ts)
-		return pdres{p: oracle.ExtractPhysical(ts), l: oracle.ExtractLogical(ts)}
-	}
-	o, err := oracles.NewPdOracle(pdc, &oracles.PDOracleOptions{UpdateInterval: time.Millisecond})
-	if err != nil {
-		panic(err)
-	}
-	ctx := context.Background()
-	scs := []string{"global", "dc-rf-1", "dc-rf-2"}[:nsc]
-	pdc.mu.Lock()
-	pdc.gated = true
-	pdc.mu.Unlock()
-	waitPending := func() bool {
-		for d := time.Now().Add(5 * time.Second); time.Now().Before(d); {
-			if pdc.npending() > 0 {
-				return true
-			}
-			time.Sleep(20 * time.Microsecond)
-		}
-		return false
-	}
-	stop := make(chan struct{})
-	var rwg sync.WaitGroup
-	var bad atomic.Value
-	var nreads atomic.Int64
-	for _, sc := range scs {
-		rwg.Add(1)
-		go func(sc string) {
-			defer rwg.Done()
-			var prev uint64
-			for {
-				lr, err := o.GetLowResolutionTimestamp(ctx, &oracle.Option{TxnScope: sc})
-				mx := maxIssued.Load()
-				if err == nil {
-					if lr < prev {
-						bad.CompareAndSwap(nil, fmt.Sprintf("a reader of scope %s observed %x after %x", sc, lr, prev))
-					}
-					if lr > mx {
-						bad.CompareAndSwap(nil, fmt.Sprintf("a reader of scope %s observed %x > max issued %x", sc, lr, mx))
-					}
-					prev = lr
-					nreads.Add(1)
-				}
-				select {
-				case <-stop:
-					return
-				default:
-				}
-				runtime.Gosched()
-			}
-		}(sc)
-	}
-	failName, failDetail := "", ""
-	staysDetail := "" // an entry that disappeared (reported, the run goes on to look for a decrease)
-	cached := map[string]uint64{}
-	done := 0
-	for ; done < rounds && failName == ""; done++ {
-		if !waitPending() {
-			failName, failDetail = "rf_refresher_runs", "no refresher request within 5s"
-			break
-		}
-		pdc.mu.Lock()
-		held := pdc.pend[0].r
-		pdc.mu.Unlock()
-		heldTS := oracle.ComposeTS(held.p, held.l)
-		// requests whose answers PD issues now but which reach their callers only after the refresher's outcome
-		type earlyFut struct {
-			sc  string
-			fut oracle.Future
-		}
-		var early []earlyFut
-		var earlyDesc []string
-		for _, sc := range scs {
-			if r.Intn(2) == 0 {
-				early = append(early, earlyFut{sc, o.GetTimestampAsync(ctx, &oracle.Option{TxnScope: sc})})
-				earlyDesc = append(earlyDesc, sc)
-			}
-		}
-		// foreground callers cache later timestamps (a random subset of scopes, at least one)
-		var fg []string
-		for i, sc := range scs {
-			if i == done%len(scs) || r.Intn(2) == 0 {
-				ts, err := o.GetTimestampAsync(ctx, &oracle.Option{TxnScope: sc}).Wait()
-				if err != nil {
-					panic(err)
-				}
-				cached[sc] = ts
-				fg = append(fg, fmt.Sprintf("%s:=%x", sc, ts))
-			}
-		}
-		before := map[string]uint64{}
-		for _, sc := range scs {
-			if lr, err := o.GetLowResolutionTimestamp(ctx, &oracle.Option{TxnScope: sc}); err == nil {
-				before[sc] = lr
-			}
-		}
-		fault := done%3 == 2 || r.Intn(4) == 0 // PD fails this refresher request
-		pdc.release(fault)                     // PD's (older) answer, or a failure, reaches the refresher now
-		if !waitPending() {                    // its next request: the previous publish step is over
-			failName, failDetail = "rf_refresher_runs", "refresher did not continue within 5s"
-			break
-		}
-		// answers that PD issued earlier (before the foreground's) arrive only now
-		for _, e := range early {
-			if _, err := e.fut.Wait(); err != nil {
-				panic(err)
-			}
-		}
-		for _, sc := range scs {
-			lr, err := o.GetLowResolutionTimestamp(ctx, &oracle.Option{TxnScope: sc})
-			if _, had := before[sc]; had && err != nil && staysDetail == "" {
-				staysDetail = fmt.Sprintf("round %d: refresher request allocated %x answered with fault=%v; scope %s had cached %x, now: %v", done, heldTS, fault, sc, before[sc], err)
-			}
-			if err == nil && lr < before[sc] {
-				failName = "rf_lowres_monotone"
-				failDetail = fmt.Sprintf("round %d: refresher request allocated %x was held back; answers issued next are held for scopes %v; foreground cached %v; refresher answered with fault=%v, then the held answers arrived; cached value of scope %s before %x, after %x", done, heldTS, earlyDesc, fg, fault, sc, before[sc], lr)
-			}
-		}
-		if b, _ := bad.Load().(string); b != "" && failName == "" {
-			failName, failDetail = "rf_lowres_monotone", b
-		}
-	}
-	close(stop)
-	rwg.Wait()
-	pdc.mu.Lock()
-	pdc.gated = false
-	pdc.mu.Unlock()
-	o.Close()
-	for pdc.release(false) {
-	}
-	for _, name := range []string{"rf_lowres_monotone", "rf_lowres_stays", "rf_refresher_runs"} {
-		d := ""
-		if name == failName {
-			d = failDetail
-		}
-		if name == "rf_lowres_stays" {
-			d = staysDetail
-		}
-		pline(name, name != failName && d == "", f[1], d)
-	}
-	emit("rf", "counts", f[1], "=>", fmt.Sprintf("rounds=%d scopes=%d reads=%d", done, nsc, nreads.Load()))
-}
-
 // ---------------------------------------------------------------- dispatch
 func execLine(line string) {
 	f := strings.Split(line, "\t")
@@ -1493,6 +118,10 @@ func execLine(line string) {
 		execRf(f)
 	case "tx":
 		execTx(f)
+	case "tc":
+		execTc(f)
+	case "kv":
+		execKv(f)
 	case "iv":
 		execIv(f)
 	case "sl":
